@@ -103,6 +103,43 @@ def run(F, R, ctx):
     R.inst("C18.d", "IterativeDropHandler::bfs runs the work-list visitor", bool(dh.call_blocks(r"::visit$")),
            "IterativeDropHandler::bfs no longer drains its work-list", dh.loc(), sample=True)
 
+    # ---- e: the printer looks cycle nodes up under the key the collector registered them with
+    R.rule("C18.e", "sibling agreement between the cycle collector and the cyclic printer: for each container kind, "
+                    "CycleDetector::start_format computes the node's key with the same address function "
+                    "(Gc::as_ptr / HeapRef::as_ptr_usize / identity_tuple / SteelVal::as_ptr_usize) that "
+                    "CycleCollector::visit_<kind> used when it registered the node; a different key makes the lookup's "
+                    "unwrap() fail, i.e. printing such a cyclic value aborts the host")
+    KEY = re.compile(r"::(as_ptr|as_ptr_usize|identity_tuple)$")
+    kinds = {"heap_allocated": "HeapAllocated", "steel_struct": "CustomStruct", "list": "ListV", "immutable_vector": "VectorV",
+             "hash_map": "HashMapV", "hash_set": "HashSetV", "boxed_value": "Boxed", "syntax_object": "SyntaxObject",
+             "mutable_vector": "MutableVector", "pair": "Pair"}
+    sf = F.one(r"\{impl CycleDetector\}::start_format$")
+    sws_ = lib.enum_switches(sf, "SteelVal")
+    if not sws_:
+        raise CheckError("anchor lost: CycleDetector::start_format does not match on SteelVal")
+    sw_ = max(sws_, key=lambda s_: len(sf.blocks[s_]["targets"]))
+    m_ = lib.arm_map(sf, sw_)
+    dom_ = sf.dominators()
+    ne = 0
+    for k, v in sorted(kinds.items()):
+        fns = [f for n_, f in F.fns.items() if re.search(r"for CycleCollector(<[^}]*>)?\}::visit_%s$" % k, n_)]
+        if not fns or v not in m_ or m_[v] == m_["_"]:
+            continue
+        ck = sorted(set(lib.short_name(b["callee"]) for _, b in lib.family_calls(F, fns[0])
+                        if KEY.search(b["callee"]) and not re.search(r"HashMap|Option|RwLock", b["callee"])))
+        if not ck:
+            continue
+        t_ = m_[v]
+        region = [x for x in sf.reachable_from([t_], avoid={sw_}) if t_ in dom_.get(x, ())]
+        dk = sorted(set(lib.short_name(sf.blocks[x]["callee"]) for x in region if sf.blocks[x]["k"] == "call"
+                        and KEY.search(sf.blocks[x]["callee"]) and not re.search(r"HashMap|Option", sf.blocks[x]["callee"])))
+        ne += 1
+        R.inst("C18.e", "cycle key of %s: collector %s / printer %s" % (v, ",".join(ck), ",".join(dk)), ck == dk,
+               "CycleCollector::visit_%s registers a %s node under %s but CycleDetector::start_format looks it up under %s: "
+               "when such a node is itself the recorded cycle participant the lookup returns None and the unwrap() panics "
+               "(printing the value aborts the host)" % (k, v, ck, dk), sf.loc(), sample=True)
+    R.floor("C18.e", "container kinds compared", ne, 8)
+
     # ---- b
     ce, _ = F.graph()
     roots = {
